@@ -89,9 +89,12 @@ enum RK {
     /// not authentic, MACPayload exactly the maximum of the RX2 data rate (must NOT be treated
     /// as oversized)
     ExactMaxBadMic,
+    /// not authentic (broken MIC or foreign keys), MACPayload anywhere from 60 octets up to the maximum of
+    /// the plan's default RX2 data rate (RP002 table, the one C05 and C12 read): not oversized either
+    WithinLimitBadMic,
 }
 
-const RKS: [RK; 12] = [RK::Random, RK::BitFlip, RK::OtherSession, RK::OtherAddr, RK::Replay, RK::Stale, RK::FarFuture, RK::Reflected, RK::JoinAcceptWhileJoined, RK::Oversize, RK::Truncated, RK::ExactMaxBadMic];
+const RKS: [RK; 13] = [RK::Random, RK::BitFlip, RK::OtherSession, RK::OtherAddr, RK::Replay, RK::Stale, RK::FarFuture, RK::Reflected, RK::JoinAcceptWhileJoined, RK::Oversize, RK::Truncated, RK::ExactMaxBadMic, RK::WithinLimitBadMic];
 
 struct Step {
     data: Vec<u8>,
@@ -174,7 +177,13 @@ fn data_twins(front: Front, reg: Reg, flip_bit: Option<usize>, rng: &mut Prng, c
         let f = (lo + rng.below(((hi - lo) / 100) as u64) as u32 * 100) / 100;
         let mut cmds = rx_timing_setup_req(rng.range(1, 9) as u8);
         if rng.bool() {
-            cmds.extend(rx_param_setup_req(reg.rx2_default().1, f));
+            // (one request in two also moves the RX1 offset, to the plan's largest one in three: in IN865
+            // and AS923 that takes RX1 of the fastest uplinks to a rate the tables do not define)
+            let off = if rng.bool() { 0 } else if rng.chance(1, 3) { reg.max_rx1_offset() } else { rng.below(reg.max_rx1_offset() as u64 + 1) as u8 };
+            if off > 0 {
+                col.event("pending_rx1_offset");
+            }
+            cmds.extend(rx_param_setup_req((off << 4) | reg.rx2_default().1, f));
         }
         if !reg.fixed() && rng.bool() {
             cmds.extend(dl_channel_req(0, f));
@@ -292,6 +301,20 @@ fn data_twins(front: Front, reg: Reg, flip_bit: Option<usize>, rng: &mut Prng, c
                 v[l - 1] ^= 0x5A;
                 v
             }
+            RK::WithinLimitBadMic => {
+                let m = crate::c05::max_mac_payload(reg, reg.rx2_default().1).unwrap_or(59);
+                let len = if m > 60 && rng.chance(2, 3) { rng.range(60, m as u64) as usize } else { m - rng.below(3) as usize };
+                col.event("inserted_within_limit_long_frames");
+                if rng.bool() {
+                    let mut v = net.downlink(&Down { fcnt: n_auth + 1, port: Some(4), payload: &rng.bytes(len - 8), confirmed: rng.bool(), ..Default::default() });
+                    let l = v.len();
+                    v[l - 1 - rng.below(4) as usize] ^= 0x5A;
+                    v
+                } else {
+                    let other = Net { nwk: rng.arr(), app: rng.arr(), addr: net.addr };
+                    other.downlink(&Down { fcnt: n_auth + 1, port: Some(4), payload: &rng.bytes(len - 8), confirmed: rng.bool(), ..Default::default() })
+                }
+            }
             RK::FarFuture => net.downlink(&Down { fcnt: n_auth.saturating_add(16_385 + rng.below(30_000) as u32), port: Some(4), payload: &[4], confirmed: true, f_opts: &rx_timing_setup_req(5), ..Default::default() }),
             RK::Reflected => vec![], // filled at run time with B's own uplink of this transaction
             RK::JoinAcceptWhileJoined => {
@@ -325,6 +348,10 @@ fn data_twins(front: Front, reg: Reg, flip_bit: Option<usize>, rng: &mut Prng, c
         let mut sa = Script::silent();
         let mut sb = Script::silent();
         let mut pick = rng.below(if front == Front::AsyncC { 5 } else { 3 });
+        if kind == RK::WithinLimitBadMic {
+            // the windows that run at the RX2 rate: RX2 itself and, for a Class C device, the gaps
+            pick = if front == Front::AsyncC && rng.bool() { 3 + rng.below(2) } else { 1 };
+        }
         if kind == RK::ExactMaxBadMic {
             // RX2 (its rate is the plan's default here), optionally followed by nothing: twin A's
             // RX2 is silent, so B must behave exactly like A
@@ -382,7 +409,7 @@ fn data_twins(front: Front, reg: Reg, flip_bit: Option<usize>, rng: &mut Prng, c
             }
         };
         col.event(match kind {
-            RK::Random | RK::Truncated | RK::ExactMaxBadMic => "inserted_random",
+            RK::Random | RK::Truncated | RK::ExactMaxBadMic | RK::WithinLimitBadMic => "inserted_random",
             RK::BitFlip => "inserted_bitflip",
             RK::Replay | RK::Stale | RK::FarFuture => "inserted_replay",
             RK::OtherSession | RK::JoinAcceptWhileJoined => "inserted_other_session",
